@@ -11,6 +11,11 @@ package suites
 //   aliasing                      a snapshot shares a list array / permission map / struct with the tracked state
 //   snapshots-share-memory        a write through one snapshot changed another one the client never aliased with it
 //   getter-results-disagree       LookupUser / LookupChannel of a tracked name differs from the element of Users() / Channels()
+//   listing-shared                the result slices ([]*User, []*Channel, []string) of two getter calls share a backing
+//                                 array / a slot write in one shows in another
+//   listing-overwritten           a later getter call or event changed a result slice handed out earlier
+//   snapshot-torn                 (suite heap.churn) a snapshot taken while another goroutine feeds events is not a
+//                                 state the client ever tracked
 //   member-getter-live-object     the same three, for objects returned by User.Channels /
 //                                 Channel.Users / Trusted / Admins (state.go), which are documented to
 //                                 return references: an observation, only suite heap.members (not in
@@ -28,7 +33,7 @@ import (
 )
 
 type heapOp struct {
-	Tag   string // E S M A R I
+	Tag   string // E S M A R I L
 	Ev    Ev
 	Kind  string
 	Name  string
@@ -54,6 +59,8 @@ func (o heapOp) args() []string {
 		return []string{"R"}
 	case "I":
 		return []string{"I", strconv.Itoa(o.ID)}
+	case "L":
+		return []string{"L", strconv.Itoa(o.ID), o.Field, strconv.Itoa(o.Index)}
 	}
 	return nil
 }
@@ -138,6 +145,12 @@ func heapDecode(c Case) (nick, user string, ops []heapOp, ok bool) {
 			}
 			ops = append(ops, heapOp{Tag: "I", ID: natArg(r[0])})
 			r = r[1:]
+		case "L":
+			if len(r) < 3 {
+				return nick, user, ops, true
+			}
+			ops = append(ops, heapOp{Tag: "L", ID: natArg(r[0]), Field: r[1], Index: natArg(r[2])})
+			r = r[3:]
 		default:
 			return nick, user, ops, true
 		}
@@ -233,11 +246,92 @@ func heapGettersAgree(c *girc.Client) string {
 	return ""
 }
 
+// heapStringListings checks the []string results of UserList() / ChannelList(): two results
+// alive at once do not share a backing array, and writing one changes neither the other nor
+// a later result. (Not modelled: they are built from immutable strings inside the call.)
+func heapStringListings(c *girc.Client) string {
+	for _, get := range []struct {
+		name string
+		f    func() []string
+	}{{"UserList", c.UserList}, {"ChannelList", c.ChannelList}} {
+		a := get.f()
+		b := get.f()
+		if len(a) == 0 {
+			continue
+		}
+		if listPtr(a) == listPtr(b) {
+			return "two results of " + get.name + "() share one backing array"
+		}
+		want := strings.Join(b, ",")
+		a[0] = "\x00overwritten"
+		if len(a) > 1 {
+			a[0], a[len(a)-1] = a[len(a)-1], a[0]
+		}
+		if got := strings.Join(b, ","); got != want {
+			return "writing one result of " + get.name + "() changed another one: " + got
+		}
+		if got := strings.Join(get.f(), ","); got != want {
+			return "writing a result of " + get.name + "() changed what a later call returns: " + got
+		}
+	}
+	return ""
+}
+
 type heapSnap struct {
 	u     *girc.User
 	c     *girc.Channel
 	leaky bool   // obtained from a member getter (User.Channels / Channel.Users)
 	want  string // its value after the last client operation
+}
+
+// heapListing is the RESULT SLICE of one Users() / Channels() call held by the client.
+type heapListing struct {
+	us    []*girc.User
+	cs    []*girc.Channel
+	users bool
+	want  string // its rendering after the client's last own write
+}
+
+func (l *heapListing) dump() string {
+	var p []string
+	if l.users {
+		for _, u := range l.us {
+			if u == nil {
+				p = append(p, "nil")
+			} else {
+				p = append(p, heapDumpUser(u))
+			}
+		}
+	} else {
+		for _, c := range l.cs {
+			if c == nil {
+				p = append(p, "nil")
+			} else {
+				p = append(p, heapDumpChan(c))
+			}
+		}
+	}
+	return strings.Join(p, "|")
+}
+
+func (l *heapListing) ptr() uintptr {
+	if l.users {
+		if cap(l.us) == 0 {
+			return 0
+		}
+		return reflect.ValueOf(l.us).Pointer()
+	}
+	if cap(l.cs) == 0 {
+		return 0
+	}
+	return reflect.ValueOf(l.cs).Pointer()
+}
+
+func (l *heapListing) length() int {
+	if l.users {
+		return len(l.us)
+	}
+	return len(l.cs)
 }
 
 func (s *heapSnap) isNil() bool { return s.u == nil && s.c == nil }
@@ -418,6 +512,7 @@ func heapRun(c Case) Result {
 	defer ss.Stop()
 	cl := ss.C
 	var snaps []*heapSnap
+	var lists []*heapListing
 	var out []string
 	oracle := ""
 	report := func(class, msg string) {
@@ -430,6 +525,26 @@ func heapRun(c Case) Result {
 			return "member-getter-live-object"
 		}
 		return class
+	}
+	// a listing handed out earlier must still be what it was (after the client's own last write)
+	checkLists := func(when string) {
+		for j, l := range lists {
+			if got := l.dump(); got != l.want {
+				report("listing-overwritten", fmt.Sprintf("%s changed listing %d (result slice of an earlier Users()/Channels() call) from %s to %s", when, j, l.want, got))
+				l.want = got
+			}
+		}
+	}
+	addList := func(l *heapListing) {
+		l.want = l.dump()
+		if p := l.ptr(); p != 0 {
+			for j, o := range lists {
+				if o.ptr() == p {
+					report("listing-shared", fmt.Sprintf("the result slice of this call is the backing array of listing %d handed out earlier", j))
+				}
+			}
+		}
+		lists = append(lists, l)
 	}
 	var nE, nS, nM, nonNil, applied int
 	var evAfter, shrinkAfter int // events (and list-shrinking / renaming events) while a snapshot is held
@@ -465,6 +580,7 @@ func heapRun(c Case) Result {
 					s.want = got
 				}
 			}
+			checkLists(fmt.Sprintf("op %d (%s %q)", i, op.Ev.Cmd, op.Ev.Params))
 		case "S":
 			nS++
 			switch op.Kind {
@@ -473,11 +589,17 @@ func heapRun(c Case) Result {
 			case "chan":
 				add(&heapSnap{c: cl.LookupChannel(op.Name)})
 			case "users":
-				for _, u := range cl.Users() {
+				l := cl.Users()
+				checkLists(fmt.Sprintf("op %d (a later Users() call)", i))
+				addList(&heapListing{us: l, users: true})
+				for _, u := range l {
 					add(&heapSnap{u: u})
 				}
 			case "chans":
-				for _, ch := range cl.Channels() {
+				l := cl.Channels()
+				checkLists(fmt.Sprintf("op %d (a later Channels() call)", i))
+				addList(&heapListing{cs: l})
+				for _, ch := range l {
 					add(&heapSnap{c: ch})
 				}
 			case "uchans":
@@ -518,7 +640,12 @@ func heapRun(c Case) Result {
 			if op.Tag == "M" && op.Field == "alias" {
 				clientAliased = true
 			}
-			if after := heapRequery(cl); after != before {
+			for _, l := range lists { // elements of a listing are the client's own objects: its writes show there
+				l.want = l.dump()
+			}
+			after := heapRequery(cl)
+			checkLists(fmt.Sprintf("the getter calls after op %d", i))
+			if after != before {
 				report(classOf(s, "snapshot-write-reached-live"),
 					fmt.Sprintf("op %d (%s %s on snapshot %d) changed the tracked state from %s to %s", i, op.Tag, op.Field+op.Flags, op.ID, before, after))
 			}
@@ -533,6 +660,46 @@ func heapRun(c Case) Result {
 			}
 		case "R":
 			out = append(out, "R"+heapRequery(cl))
+			checkLists(fmt.Sprintf("op %d (re-query)", i))
+		case "L":
+			if op.ID >= len(lists) {
+				continue
+			}
+			l := lists[op.ID]
+			switch op.Field {
+			case "show":
+				out = append(out, "L"+strconv.Itoa(op.ID)+"="+l.dump())
+				continue
+			case "nil":
+				if op.Index < l.length() {
+					if l.users {
+						l.us[op.Index] = nil
+					} else {
+						l.cs[op.Index] = nil
+					}
+				}
+			case "swap":
+				if op.Index+1 < l.length() {
+					if l.users {
+						l.us[op.Index], l.us[op.Index+1] = l.us[op.Index+1], l.us[op.Index]
+					} else {
+						l.cs[op.Index], l.cs[op.Index+1] = l.cs[op.Index+1], l.cs[op.Index]
+					}
+				}
+			default:
+				continue
+			}
+			applied++
+			l.want = l.dump()
+			for j, o := range lists { // a slot write in one result slice must not show in another
+				if got := o.dump(); got != o.want {
+					report("listing-shared", fmt.Sprintf("op %d (%s slot %d of listing %d) changed listing %d from %s to %s", i, op.Field, op.Index, op.ID, j, o.want, got))
+					o.want = got
+				}
+			}
+			before := heapRequery(cl)
+			_ = before
+			checkLists(fmt.Sprintf("the getter calls after op %d", i))
 		case "I":
 			if op.ID >= len(snaps) {
 				out = append(out, "I"+strconv.Itoa(op.ID)+":none")
@@ -552,7 +719,21 @@ func heapRun(c Case) Result {
 		}
 		out = append(out, "I"+strconv.Itoa(j)+":"+v)
 	}
+	for j, l := range lists {
+		out = append(out, "L"+strconv.Itoa(j)+"="+l.dump())
+	}
 	out = append(out, "R"+heapRequery(cl))
+	checkLists("the final re-query")
+	for j, l := range lists {
+		for k := j + 1; k < len(lists); k++ {
+			if p := l.ptr(); p != 0 && p == lists[k].ptr() {
+				report("listing-shared", fmt.Sprintf("listings %d and %d (result slices of two calls) share one backing array", j, k))
+			}
+		}
+	}
+	if m := heapStringListings(cl); m != "" {
+		report("listing-shared", m)
+	}
 	if !clientAliased { // objects handed out by different getter calls must not share memory either
 		seen := map[uintptr]int{}
 		for j, s := range snaps {
@@ -872,7 +1053,11 @@ func heapGenOps(r *rand.Rand, event func(*rand.Rand) Ev, members bool) Case {
 		case k < 17:
 			ops = append(ops, heapMutation(r, nsnaps))
 		case k < 18:
-			ops = append(ops, heapOp{Tag: "R"})
+			if r.Intn(2) == 0 {
+				ops = append(ops, heapOp{Tag: "R"})
+			} else {
+				ops = append(ops, heapOp{Tag: "L", ID: r.Intn(3), Field: Pick(r, "nil", "swap", "swap", "show"), Index: r.Intn(4)})
+			}
 		default:
 			ops = append(ops, heapOp{Tag: "I", ID: r.Intn(nsnaps + 1)})
 		}
@@ -916,6 +1101,11 @@ func heapFixed() []Case {
 		// equal lists in different objects: #a and #c have the same members
 		mk(heapE("me", "JOIN", "#c"), heapE("srv", "353", "me", "=", "#c", "me @alice +bob carol"), heapOp{Tag: "S", Kind: "chans"},
 			heapOp{Tag: "M", ID: 0, Field: "elem", Index: 1, Value: "zzz"}, heapOp{Tag: "S", Kind: "users"}, heapOp{Tag: "M", ID: 4, Field: "elem", Index: 0, Value: "#q"}),
+		// result slices: two listings alive at once, slot writes in the first, events, a third call
+		mk(heapOp{Tag: "S", Kind: "users"}, heapOp{Tag: "S", Kind: "users"}, heapOp{Tag: "L", ID: 0, Field: "nil", Index: 1}, heapOp{Tag: "L", ID: 0, Field: "swap", Index: 2},
+			heapOp{Tag: "M", ID: 0, Field: "nick", Value: "mallory"}, heapOp{Tag: "L", ID: 1, Field: "show"}, heapE("alice", "QUIT", "bye"), heapE("aaron", "JOIN", "#a"),
+			heapE("bob", "NICK", "robert"), heapOp{Tag: "S", Kind: "users"}, heapOp{Tag: "L", ID: 0, Field: "show"}, heapOp{Tag: "S", Kind: "chans"}, heapOp{Tag: "S", Kind: "chans"},
+			heapOp{Tag: "L", ID: 3, Field: "swap", Index: 0}, heapOp{Tag: "L", ID: 4, Field: "show"}),
 		// lookups by hostmask-like and decorated arguments: nil at HEAD, and never the tracked object
 		mk(heapOp{Tag: "S", Kind: "user", Name: "alice!a@h"}, heapOp{Tag: "S", Kind: "user", Name: "alice@h"}, heapOp{Tag: "S", Kind: "user", Name: "Alice!*@*"},
 			heapOp{Tag: "S", Kind: "user", Name: "alice!a"}, heapOp{Tag: "S", Kind: "user", Name: "@alice"}, heapOp{Tag: "S", Kind: "user", Name: " alice"},
